@@ -139,6 +139,10 @@ func Build(specs []GenSpec) []gengo.Generator {
 			}
 			switch bh.Mode {
 			case "observe":
+				// the ordinal of this call within its per-package instance is part of the output: the order in which a
+				// package's types are dispatched shows in the file's bytes (as it does for real generators that emit
+				// helpers on first use), the order of packages does not
+				c.RenderT("// @g: type call #@k of this instance\n", snippet.Arg("g", snippet.Block(gs.Name)), snippet.Arg("k", snippet.Block(fmt.Sprint(inst.Calls))))
 				observe(c, bh, gs.Name, named)
 			case "stateful":
 				// everything here depends on per-instance state: a leaked instance changes the output
